@@ -47,11 +47,11 @@ func c20Single(c *C20Case) Verdict {
 	ctx := context.Background()
 	var cancel context.CancelFunc = func() {}
 	var deadline time.Duration = -1
-	var waitEnd time.Duration
 	if c.CancelAfter >= 0 && c.CancelAfter < attempts-1 && w > 0 {
-		// The deadline is placed inside the wait the implementation ACTUALLY makes after attempt
-		// CancelAfter (it may be longer than w, e.g. a back-off): a cancellation-free reference run
-		// of the same scenario gives the stamps.
+		// The deadline is aimed at the wait the implementation makes after attempt CancelAfter (it
+		// may be longer than w, e.g. a back-off): a cancellation-free reference run of the same
+		// scenario proposes the instant. Whether it really fell inside a wait is read off the
+		// timeline of the judged run itself (waits may differ between runs, e.g. jitter).
 		ref := newWfExec(sc)
 		ref.hook = x.hook
 		ref.run(context.Background())
@@ -65,11 +65,12 @@ func c20Single(c *C20Case) Verdict {
 			from, to := re[c.CancelAfter].T1, re[c.CancelAfter+1].T0
 			if to > from {
 				deadline = from + (to-from)*time.Duration(1+c.Frac%7)/8
-				waitEnd = to
-				x.t0 = time.Now()
-				ctx, cancel = context.WithDeadline(ctx, x.t0.Add(deadline))
 			}
 		}
+	}
+	x.t0 = time.Now()
+	if deadline >= 0 {
+		ctx, cancel = context.WithDeadline(ctx, x.t0.Add(deadline))
 	}
 	defer cancel()
 	rr := x.run(ctx)
@@ -92,24 +93,41 @@ func c20Single(c *C20Case) Verdict {
 	}
 	for a := 1; a < len(execs); a++ {
 		gap := execs[a].T0 - execs[a-1].T1
-		if gap < w {
+		if gap < w && w >= time.Millisecond { // (sub-millisecond waits are below the quantified range)
 			return bad("C20:wait-too-short", "attempt %d started %v after attempt %d failed; configured wait is %v", a, gap, a-1, w)
 		}
 		// gap > w is admissible ("at least w"): e.g. a back-off policy
 	}
 	if deadline >= 0 {
-		if len(execs) != c.CancelAfter+1 {
-			return bad("C20:attempt-after-cancel", "deadline at %v inside the wait after attempt %d, yet %d attempts were made", deadline, c.CancelAfter, len(execs))
+		// where did the deadline fall on THIS run's timeline?
+		j := -1
+		for a, e := range execs {
+			if e.T1 <= deadline {
+				j = a
+			}
 		}
+		switch {
+		case j < 0:
+			return ok(false, "single", "deadline-outside-wait")
+		case j+1 < len(execs) && execs[j+1].T0 <= deadline:
+			// an attempt was in progress at the deadline: C05's business
+			return ok(false, "single", "deadline-outside-wait")
+		case j+1 < len(execs):
+			return bad("C20:attempt-after-cancel", "deadline at %v fell into the wait after attempt %d (ended %v), yet attempt %d was started at %v", deadline, j, execs[j].T1, j+1, execs[j+1].T0)
+		case finished <= deadline:
+			return ok(false, "single", "deadline-outside-wait") // the run was over before the deadline
+		}
+		// every attempt made ended before the deadline and the run was still going on at the
+		// deadline: it was waiting (fallback and post take no virtual time here)
 		if rr.Err == nil || !errors.Is(rr.Err, context.DeadlineExceeded) {
-			return bad("C20:cancel-error", "cancelled during the wait but run returned %v", rr.Err)
+			return bad("C20:cancel-error", "cancelled during the wait after attempt %d but run returned %v", j, rr.Err)
 		}
-		// promptly = without sleeping out the remainder of the wait (and, for the 1 h wait,
-		// within a generous virtual minute); an implementation polling the context is fine
-		if finished >= waitEnd || finished-deadline > time.Minute {
-			return bad("C20:not-prompt", "cancellation at %v during a %v wait that would have ended at %v: run returned only at %v", deadline, w, waitEnd, finished)
+		// promptly = within a generous (virtual) minute; with the 1 h wait this is "without sleeping
+		// out the remainder" (an implementation polling the context at some granularity is fine)
+		if finished-deadline > time.Minute {
+			return bad("C20:not-prompt", "cancellation at %v during a %v wait: run returned only at %v", deadline, w, finished)
 		}
-		return ok(true, "single", "cancel-in-wait", fmt.Sprintf("after-attempt-%d", c.CancelAfter))
+		return ok(true, "single", "cancel-in-wait", fmt.Sprintf("after-attempt-%d", j))
 	}
 	// (how many attempts are made is C02's business)
 	last := execs[len(execs)-1]
@@ -124,6 +142,9 @@ func c20Batch(c *C20Case) Verdict {
 	w := sc.wait()
 	x := newBatchExec(sc)
 	br := x.run()
+	if br.Rejected {
+		return ok(false, "batch", "prep-form-rejected")
+	}
 	if br.Panic != "" {
 		return bad("C20:panic", "%s", br.Panic)
 	}
@@ -143,7 +164,7 @@ func c20Batch(c *C20Case) Verdict {
 		}
 		for a := 1; a < len(execs); a++ {
 			gap := execs[a].Start - execs[a-1].End
-			if gap < w {
+			if gap < w && w >= time.Millisecond {
 				return bad("C20:item-wait", "item %d: attempt %d started %v after attempt %d failed; configured wait %v", i, a, gap, a-1, w)
 			}
 		}
@@ -182,7 +203,7 @@ func c20Batch(c *C20Case) Verdict {
 		if lastEnd > limit {
 			limit = lastEnd
 		}
-		if br.Finished > limit+time.Minute || (w > 0 && br.Finished >= limit+w) {
+		if br.Finished > limit+time.Minute {
 			return bad("C20:batch-not-prompt", "deadline at %v, last callback ended at %v, but the run returned at %v (wait %v slept out?)", dl, lastEnd, br.Finished, w)
 		}
 		return ok(nontrivial, "batch", "deadline", fmt.Sprintf("c=%d", min(sc.C, 4)))
@@ -202,7 +223,7 @@ func checkC20(t *testing.T, c C20Case) Verdict {
 			v = c20Batch(&c)
 		}
 	})
-	if f != "" {
+	if f != "" && !(c.Batch != nil && goroutinesRemain(f)) {
 		return bad("C20:bubble", "%s", f)
 	}
 	return v
